@@ -132,6 +132,25 @@ def build_abstract(m: Dict[str, Any], **db_kwargs):
     return db
 
 
+def build_stub(m: Dict[str, Any], **db_kwargs):
+    """built through the API, plus one table WITHOUT columns (the parser refuses such a table, the constructors do not): returns
+    the database and the content it now has.  Database.add appends: the stub is the last table."""
+    import copy
+    from pydbml.database import Database
+    from pydbml.classes import Table, Note
+    from . import project as pj
+
+    def stub():
+        return Table('stub tbl', schema='s1', note=Note('a stub'))
+    lone = Database()
+    lone.add(stub())
+    db = build(m, **db_kwargs)
+    db.add(stub())
+    m2 = copy.deepcopy(m)
+    m2['tables'] = m2['tables'] + [pj.project_db(lone)['tables'][0]]
+    return db, m2
+
+
 def build_morphed(m: Dict[str, Any], aspects=('names', 'types', 'settings', 'refs'), **db_kwargs):
     """The same final content reached the long way round: a database is built from a DIFFERENT content (other table and
     column names, types, flags, defaults, notes, actions), rendered to SQL and DBML (whatever a renderer or a model object
